@@ -66,9 +66,9 @@ contract("Sequence.refresh", params={"self": "ref:Sequence"}, allocates=True, re
 
 
 # ------------------------------------------------------------------ mutators through the relative view
-def rel_mutator(name, params, extra_requires=(), extra_ensures=(), props=(), result=None, weak=False):
+def rel_mutator(name, params, extra_requires=(), extra_ensures=(), props=(), result=None, weak=False, modifies=None):
     contract(f"Sequence.{name}", params=dict({"self": "ref:Sequence"}, **params), allocates=True, result=result, cases=CASES,
-             requires=[PROTO()] + list(extra_requires), modifies=dict(WRAP_MOD_WEAK if weak else WRAP_MOD),
+             requires=[PROTO()] + list(extra_requires), modifies=dict(modifies if modifies is not None else (WRAP_MOD_WEAK if weak else WRAP_MOD)),
              ensures=[("rel_fresh_abs_stale", "not self._rel_stale and self._abs_stale"), ("proto", PROTO())] + list(extra_ensures),
              props=["C04", "C16"] + list(props))
 
@@ -82,12 +82,17 @@ def abs_mutator(name, params, extra_requires=(), extra_ensures=(), props=()):
 
 RLj = RL + "[j]"
 rel_mutator("pad", {"padding_length": "int"}, props=["C18", "C11"],
-            extra_ensures=[("delegates", f"implies(not old(self._rel_stale), self._rel == old(self._rel))")])
+            extra_ensures=[("delegates", f"implies(not old(self._rel_stale), self._rel == old(self._rel))"),
+                           ("duration_is_max_when_fresh", f"implies(not old(self._rel_stale), wsum({RL}, len({RL})) == max(old(wsum({RL}, len({RL}))), padding_length))")])
 rel_mutator("set_channel", {"channel": "int"}, props=["C18"],
             extra_ensures=[("all_set", f"forall(0, len({RL}), lambda j: {RLj}.channel == channel)")])
 rel_mutator("normalise", {})
 rel_mutator("scale", {"factor": "int", "meta_sequence": "ref:Sequence?", "quantise_afterwards": "bool"}, extra_requires=["factor >= 1"], props=["C18"], weak=True)
-rel_mutator("add_relative_message", {"msg": "ref:Message", "index": "int?"},
+rel_mutator("add_relative_message", {"msg": "ref:Message", "index": "int?"}, props=["C10"],
+            # (no message field is written: only the wrapper's own fields and the lists of its stored views)
+            modifies=dict(SELF_FIELDS, **{"@lists": OWN_MSGS, "_messages": OWN_VIEWS}),
+            extra_ensures=[("inserted_when_fresh", f"implies(not old(self._rel_stale) and not is_none(index), self._rel == old(self._rel) and len({RL}) == old(len({RL})) + 1 and {RL}[index] == msg"
+                                                   f" and forall(0, index, lambda j: {RLj} == old({RLj})) and forall(index + 1, len({RL}), lambda j: {RLj} == old({RL}[j - 1])))")],
             extra_requires=["not is_none(msg.message_type) and implies(msg.message_type == MessageType.WAIT, not is_none(msg.time) and msg.time >= 0) and " + WF_MSG("msg"),
                             f"implies(not self._rel_stale, forall(0, len({RL}), lambda j: {RLj} != msg) and implies(not is_none(index), 0 <= index and index <= len({RL})))",
                             f"implies(self._rel_stale, is_none(index) or index == 0)",
@@ -156,3 +161,21 @@ contract("Sequence.equals", params={"self": "ref:Sequence", "other": "ref:Sequen
          ensures=[("not_a_sequence", "implies(is_none(other), not result)"),
                   ("delegates_with_the_same_flags", "implies(not is_none(other), result == abs_equals_result(self._abs, other._abs, ignore_channel, ignore_time_signature, ignore_key_signature, ignore_velocity))")],
          props=["C17", "C04"])
+
+# ------------------------------------------------------------------ what Bar.__init__ needs from the wrapper (C10)
+contract("Sequence.get_sequence_duration_relation", params={"self": "ref:Sequence"}, result="real", allocates=True, cases=CASES,
+         requires=[PROTO()],
+         modifies={"_rel": "self", "_rel_stale": "self", "@lists": "when(self._rel_stale, self._abs._messages)"},
+         ensures=[("duration_in_quarters", f"result * PPQN == wsum({RL}, len({RL}))"),
+                  ("rel_fresh", "not self._rel_stale and self._abs_stale == old(self._abs_stale) and self._abs == old(self._abs)"),
+                  ("kept_when_fresh", f"implies(not old(self._rel_stale), self._rel == old(self._rel) and wsum({RL}, len({RL})) == old(wsum({RL}, len({RL}))))"),
+                  ("proto", PROTO())],
+         props=["C10"])
+contract("Sequence.messages_rel", params={"self": "ref:Sequence"}, result="list:ref:Message", allocates=True, trusted=True,
+         note="generator protocol (A): consumed completely by a comprehension, messages_rel() yields the messages of the (refreshed) relative view in order and leaves the absolute view stale",
+         requires=[PROTO()],
+         modifies={"_rel": "self", "_rel_stale": "self", "_abs_stale": "self", "@lists": "when(self._rel_stale, self._abs._messages)"},
+         ensures=[("yields_the_relative_view", f"result == {RL} and not self._rel_stale and self._abs_stale"),
+                  ("kept_when_fresh", "implies(not old(self._rel_stale), self._rel == old(self._rel))"),
+                  ("wf", WF_REL(RL))],
+         props=["C10"])
